@@ -104,5 +104,5 @@ def case(ctx, rng):
 
 
 def run(ctx):
-    for _, rng in ctx.cases("networks", ctx.n(2400, 40000)):
+    for _, rng in ctx.cases("networks", ctx.budget(30000, 600000)):
         ctx.run_case(case, ctx, rng)
